@@ -135,7 +135,8 @@ def commands(fx, tier):
         Cmd("split", "split", put("whole.pna"), ["--quiet", "split", "whole.pna", "--max-size", "2000"], head="whole.pna"),
         Cmd("split-outdir", "split", put("whole.pna"), ["--quiet", "split", "whole.pna", "--out-dir", "o", "--max-size", "2000"], head="o/whole.pna"),
         Cmd("split-1part-outdir", "split", put("one.pna"), ["--quiet", "split", "one.pna", "--out-dir", "o"], head="o/one.pna"),
-        Cmd("split-1part-inplace", "split", put("one.pna"), ["--quiet", "split", "one.pna"], head="one.pna"),
+        # in place the single part keeps its number (fix c4c0055b): head = first part, the self-named case of Overwrite.v
+        Cmd("split-1part-inplace", "split", put("one.pna"), ["--quiet", "split", "one.pna"], head="one.part1.pna"),
         # the single output part o/x.part1.pna has the very name the finished archive gets: head = part 1 in the model
         # (outs = [head; head]; fix 067bc08d: the existence test in front of the final rename refused the clean run)
         Cmd("split-selfnamed-outdir", "split", put("x.part1.pna"), ["--quiet", "split", "x.part1.pna", "--out-dir", "o"], head="o/x.part1.pna"),
